@@ -26,7 +26,7 @@ CLAIMED["C15"] = ("contract-based deductive verification (WP -> SMT) of TrimColl
   "Trusted: govc, SMT solvers, go/types. Known finding F2 (triSign(1)==0) carved out and replayed. Beyond the bound the closed-path clauses are undecided.",
   "DESIGN.md section 4, C15")
 
-CLAIMED["C12"] = ("contract-based deductive verification: heap contracts (idle-state invariant) by WP -> SMT; frame / initialised-before-read / solution-replaced obligations by a syntactic effect analysis over the real AST",
+CLAIMED["C12"] = ("contract-based deductive verification: heap contracts (idle-state invariant) by WP -> SMT; frame / initialised-before-read / solution-replaced obligations by a syntactic effect analysis over the real AST; sampled bounded stand-in comparing a reused engine with a fresh one",
   "For all call histories (the obligations are statements about state, not about a run): (1) every public engine entry point (Execute, ExecuteOC, ExecutePolyTree on both engines, clipperBase.execute) "
   "re-establishes the idle state (no active edges, empty scan-line / intersection / output-record / horizontal lists) and constructors start in it; reset() re-initialises the per-run scratch fields; "
   "(2) in the call tree of every entry point the per-run fields succeeded, fillRule, clipType, currentBotY, currentLocMin, sel, usingPolyTree are written before they are read; (3) the pre-call contents "
@@ -41,7 +41,7 @@ CLAIMED["C18"] = ("contract-based verification reduced to frame conditions: per-
   "channel, select, sync/atomic/unsafe/runtime use; exported functions only read caller-supplied slices. Interleavings themselves are not explored (this family cannot).",
   "Assumes the Go runtime and the imported packages (math, sort, slices, fmt, errors, govalues/decimal, x/exp/constraints) keep no racy shared state. Conservative: a correctly synchronised package-level cache would be reported (the one known source of a possible false alarm).",
   "DESIGN.md section 4, C18")
-CLAIMED["C17"] = ("contract-based verification reduced to frame conditions (determinism: no hidden state, no nondeterministic source) plus SMT-checked comparator contracts",
+CLAIMED["C17"] = ("contract-based verification reduced to frame conditions (determinism: no hidden state, no nondeterministic source) plus SMT-checked comparator contracts; sampled bounded stand-in for the region-equality clauses (rewritings of the input, lattice symmetries)",
   "First sentence of the property only (bit-identical repeat calls): every function is free of package-level state, map iteration, clocks, random sources, environment access and address-as-integer conversions, so a call is a function of its arguments and receiver state; "
   "sort comparators are checked as contracts where listed in evidence. All region-equality clauses (permutation, rotation, reversal, subject/clip exchange, lattice symmetries) are relational properties of the sweep and are NOT decided (listed under undecided_clauses).",
   "Assumes sort.Slice / slices.SortFunc are deterministic functions of their input. Region-level clauses undecided.",
@@ -91,7 +91,7 @@ CLAIMED["C08"] = (T_WP + " for the quad construction; the union step is C01",
   "ReversePath reverses; MinkowskiSum64/Diff64 == UnionPaths64(minkowskiInternal(..., true/false, isClosed), NonZero). The union itself and commutativity are not decided.",
   "The mathematical fact that the union of edge-pair parallelograms is the Minkowski sum is used but not machine-checked. Orientation normalisation: either orientation of a quad is accepted by the contract.",
   "DESIGN.md section 4, C08")
-CLAIMED["C13"] = (T_WP + "; the advertised range is checked by re-verifying the leaves on the 2^61 domain",
+CLAIMED["C13"] = (T_WP + "; the advertised range is checked by re-verifying the leaves on the 2^61 domain; sampled bounded stand-in for region-level translation and scaling invariance",
   "Proved: translation invariance and s^2 scaling of the integer cross/dot products and of the perpendicular distance (lemmas); productsAreEqual/isCollinear exact up to magnitude 2^61 (F14 repaired: integer abs); "
   "CrossProduct sign-exact and overflow-free up to 2^30; getDx, checkCastInt64 as specified. On the advertised 2^61 domain the overflow obligations of CrossProduct, dotProduct64 and getSegmentIntersectPt FAIL with concrete operands: "
   "recorded as known finding F13 (the witness is replayed on every run). Region-level invariance of whole operations is not decided.",
